@@ -57,7 +57,7 @@ let () =
       end else begin
         let chs = List.filter (fun s -> s <> "") (split_on '|' (String.sub step 1 (String.length step - 1))) in
         let chs = List.map (fun c -> match split_on ',' c with
-          | [k; algn; qops; uh; realm; nonce; opaque] ->
+          | k :: algn :: qops :: uh :: realm :: nonce :: opaque :: _ ->      (* an eighth field is the stale flag: not looked at *)
             let (a, sess) = alg_of algn in
             let qs = if qops = "-" then [] else List.map (function "auth" -> OAuth | "auth-int" -> OAuthInt | _ -> OOther) (split_on '+' qops) in
             (k = "P", { c_alg = a; c_sess = sess; c_qops = qs; c_userhash = (uh = "1"); c_realm = bytes_of_hex realm;
